@@ -138,6 +138,10 @@ func (h *History) Step() {
 			}
 			wireTx := tx
 			if j > 0 {
+				// gossip is lossy and unordered: a node may not get a transaction at all (pools differ between nodes)
+				if rapid.IntRange(0, 4).Draw(t, "gossipLost") == 4 {
+					continue
+				}
 				wireTx = WireCopyTx(tx) // every node holds its own decoded object
 			}
 			err := r.Pool.AddExternalTxs(kind, wireTx)
